@@ -754,6 +754,122 @@ Definition gc_mark (t : st) (roots : list Z) : list addr :=
 
 Definition is_marked (m : list addr) (a : addr) : bool := existsb (addr_eqb a) m.
 
+(* ---- the marker, as coded in stoGcMarkRange ---------------------------------- *)
+(* The QmInfo tags of a mixed section: the first quantum of a piece is tagged
+   busy-first or free-first (the frontier is tagged free), the others "follow". *)
+Inductive tag := TFollow | TFree | TBusy.
+
+Definition piece_quanta (p : piece) : nat := Z.to_nat (psz p / MixedSizeQuantum).
+
+Fixpoint piece_tags (ps : list piece) : list tag :=
+  match ps with
+  | [] => []
+  | p :: t => (if is_busy (pkd p) then TBusy else TFree)
+              :: repeat TFollow (piece_quanta p - 1) ++ piece_tags t
+  end.
+
+(* while (QmInfoKind(qmtag) == QmFollow) qmtag = sect->info[--qmno];
+   GcInteriorMax >= 0: a source that gives up after that many steps back
+   (for (back = 0; ...; back++) { if (back == Max) break; ... } if (still follow) continue;) *)
+Fixpoint step_back (tags : list tag) (q : nat) (back : Z) : option nat :=
+  match nth q tags TFree with
+  | TFollow =>
+      if (0 <=? GcInteriorMax) && (back =? GcInteriorMax) then None
+      else match q with
+           | O => None
+           | S q' => step_back tags q' (back + 1)
+           end
+  | _ => Some q
+  end.
+
+(* for one word: which busy piece does it make the marker visit *)
+Definition cresolve (t : st) (v : Z) : option addr :=
+  match find_sect (sects t) O v with          (* isInHeap, pgMap: busy page, section header *)
+  | None => None
+  | Some s =>
+  let off := v - sect_base (get_sect t s) * PgSize in
+  match get_sect t s with
+  | SFixed _ qsz c qs =>
+      let d := off - fdata_off qsz in
+      if 0 <=? d then                          (* ptrLT(p, sect->data) *)
+        let i := Z.to_nat (qm_index c d) in
+        match nth_error qs i with
+        | Some (QBusy _) => Some (s, fdata_off qsz + Z.of_nat i * qsz)
+        | _ => None
+        end
+      else None
+  | SMixed _ pg ps =>
+      let d := off - mdata_off pg in
+      if 0 <=? d then
+        let tags := piece_tags ps in
+        match step_back tags (Z.to_nat (d / MixedSizeQuantum)) 0 with
+        | Some q0 =>
+            match nth q0 tags TFree with
+            | TBusy => Some (s, mdata_off pg + Z.of_nat q0 * MixedSizeQuantum + MxMemHeadSize)
+            | _ => None
+            end
+        | None => None
+        end
+      else None
+  | SDead => None
+  end
+  end.
+
+(* every word of the object, in address order: [Some v] a word the owner stored a
+   pointer value in, [None] any other word (assumed not to look like a heap address) *)
+Fixpoint slot_value (slot : Z) (l : list (Z * Z)) : option Z :=
+  match l with
+  | [] => None
+  | (k, v) :: r => if k =? slot then Some v else slot_value slot r
+  end.
+
+Fixpoint zseq (start : Z) (n : nat) : list Z :=
+  match n with O => [] | S n' => start :: zseq (start + 1) n' end.
+
+Definition obj_words (t : st) (a : addr) : list (option Z) :=
+  match lookup t a with
+  | Some (r, b) => map (fun i => slot_value i (bptrs b))
+                       (zseq 0 (Z.to_nat (bref_size t r / WordSize)))
+  | None => []
+  end.
+
+Definition wresolve (t : st) (w : option Z) : option addr :=
+  match w with Some v => cresolve t v | None => None end.
+
+(* stoGcMarkRange(lo, hi): for every word of the range: not into a busy piece, or
+   piece already marked -> next word; otherwise mark it and scan ALL the words of the
+   piece by a nested call (for the last word of the range: in place), then go on with
+   the next word.  [fuel]: each nested call has marked one more piece.
+   GcMarkDepthMax >= 0: a source that stops nesting at that depth and carries on in
+   place, which abandons the rest of the range. *)
+Fixpoint cmark (fuel : nat) (t : st) (depth : Z) (words : list (option Z)) (marked : list addr)
+  : list addr :=
+  match fuel with
+  | O => marked
+  | S f =>
+      (fix scan (ws : list (option Z)) (marked : list addr) {struct ws} : list addr :=
+         match ws with
+         | [] => marked
+         | w :: rest =>
+             match wresolve t w with
+             | None => scan rest marked
+             | Some b =>
+                 if is_marked marked b then scan rest marked
+                 else
+                   match rest with
+                   | [] => cmark f t depth (obj_words t b) (b :: marked)
+                   | _ =>
+                       if (0 <=? GcMarkDepthMax) && (depth =? GcMarkDepthMax)
+                       then cmark f t depth (obj_words t b) (b :: marked)
+                       else scan rest (cmark f t (depth + 1) (obj_words t b) (b :: marked))
+                   end
+             end
+         end) words marked
+  end.
+
+Definition cgc_mark (t : st) (roots : list Z) : list addr :=
+  cmark (S (length (live t))) t 0 (map Some roots) [].
+
 (* stoGcSweepFixed: returns the new quantum vector, the pieces for the free
    list (free before or swept now), the number of marked busy quanta and the
    blocks freed *)
@@ -845,12 +961,15 @@ Definition sweep_sect (m : list addr) (s : nat)
   | SDead => x
   end.
 
-Definition gc (t : st) (roots : list Z) : st * out :=
-  let m := gc_mark t roots in
+(* stoGcSweep for a given set of marked pieces *)
+Definition gc_with (m : list addr) (t : st) : st * out :=
   let '(t1, acc, fr, rel) :=
     fold_left (fun x s => sweep_sect m s x) (sweep_order t)
               (t, repeat [] (length (flist t)), [], []) in
   (mkSt (sects t1) acc (index t1) (front t1), OGc fr rel).
+
+(* stoGc: mark from the roots as stoGcMarkRange does, then sweep *)
+Definition gc (t : st) (roots : list Z) : st * out := gc_with (cgc_mark t roots) t.
 
 (* ================================================================== *)
 (* the state machine                                                    *)
